@@ -113,10 +113,10 @@ def cases():
             add("xcomplex", "T v=%s(std::move(w))" % part, mk, "P o = xtl::%s(std::move(r)); return o;" % part, "return o;", which)
             add("xcomplex", "owning(std::move(w).real(),std::move(w).imag()).%s" % part, mk,
                 "%s o(std::move(r).real(), std::move(r).imag()); return o;" % O, cacc, which, 2)
-        if clabel == "T&":
-            # the same specialization on other referents: the right-hand WRAPPER is an rvalue, its referents are not (both originals are compared)
-            add("xcomplex", "ref-wrapper=std::move(w)", mk, "P y = PVP::mk(5), y2 = PVP::mk(6); { %s w(y, y2); w = std::move(r); } return y;" % RT, "return o;", 0, 2)
-            add("xcomplex", "ref-wrapper=prvalue-proxy", mk, "P y = PVP::mk(5), y2 = PVP::mk(6); { %s w(y, y2); w = %s; } return y;" % (RT, fac), "return o;", 0, 2)
+        # Not enumerated on purpose: move-ASSIGNMENT between two reference-closure wrappers of the same specialization
+        # (w = std::move(r)). The statement says that assignment writes through and never rebinds; it does not say that the
+        # source's referent is left untouched (xclosure_wrapper's move-assignment swaps the two referents by design, and
+        # xcomplex<T&,T&> move-assigns them), so "the source original is unchanged" would demand more than the property states.
     ids = set()
     for c in out:
         assert c.id not in ids, c.id
